@@ -86,6 +86,11 @@ def parse_wrapper_cpp(g, ns='g', variant='plain', ctxkind=0):
     sig = 'const uint8_t* in, uint32_t opts, uint32_t* out'
     if variant == 'plain':
         body = setup + '    auto r = %s::p.parse(o, cstring_buffer<LEN + 1>(b), s);\n' % ns + fin
+    elif variant == 'hist':
+        body = setup + ('    {   // an earlier call on the same parser object with another input (reversed, low bit flipped): successful, failing and recovering priors all occur\n'
+                        '        char b2[LEN + 1]; for (int i = 0; i < LEN; i++) b2[i] = (char)(b[LEN - 1 - i] ^ 1); b2[LEN] = 0;\n'
+                        '        utils::no_stream ns0;\n'
+                        '        auto r0 = %s::p.parse(o, cstring_buffer<LEN + 1>(b2), ns0);\n' % ns) + alt + '    }\n' + '    auto r = %s::p.parse(o, cstring_buffer<LEN + 1>(b), s);\n' % ns + fin
     elif variant == 'dual':
         body = setup + ('    {   // first run: no error stream at all, verbose off\n'
                         '        utils::no_stream ns0; parse_options o0 = o; o0.set_verbose(false);\n'
@@ -146,6 +151,9 @@ int exc_pending = 0;
 #define RUN g_h_run
 #endif
 #include "rt.h"
+#ifdef WS_HEADER
+#include WS_HEADER
+#endif
 %(tables)s
 %(lex)s
 #include "ref_lr.h"
